@@ -1084,6 +1084,36 @@ def _or(m, q, args, callee):
     return args[1]
 
 
+@_m(PATH_MODELS, ('Option', 'and'))
+def _opt_and(m, q, args, callee):
+    o = args[0]
+    if discr_is(m, o, 1): return args[1]
+    return none()
+
+
+@_m(PATH_MODELS, ('Option', 'xor'))
+def _opt_xor(m, q, args, callee):
+    a, b = args[0], args[1]
+    sa, sb = discr_is(m, a, 1), discr_is(m, b, 1)
+    if sa and not sb: return a
+    if sb and not sa: return b
+    return none()
+
+
+@_m(PATH_MODELS, ('Option', 'zip'))
+def _opt_zip(m, q, args, callee):
+    a, b = args[0], args[1]
+    if discr_is(m, a, 1) and discr_is(m, b, 1): return some(Agg(None, [a.p[1][0], b.p[1][0]]))
+    return none()
+
+
+@_m(PATH_MODELS, ('Option', 'ok_or'))
+def _opt_ok_or(m, q, args, callee):
+    o = args[0]
+    if discr_is(m, o, 1): return En('Result', 0, {0: [o.p[1][0]]})
+    return En('Result', 1, {1: [args[1]]})
+
+
 @_m(PATH_MODELS, ('Option', 'and_then'))
 def _and_then(m, q, args, callee):
     o = args[0]
